@@ -2430,6 +2430,17 @@ def reaches(tu, pred):
     return out
 
 
+def deciding(tu, cond):
+    """the operand whose value decides a branch: in the CFG the block that evaluates the last operand of `a && b` / `a || b`
+    carries the whole expression as its condition, and there its value equals that of the last operand"""
+    c = core(tu, cond)
+    n0 = 0
+    while c is not None and c.get('kind') == 'BinaryOperator' and c.get('opcode') in ('&&', '||') and n0 < 6:
+        c = core(tu, tu.kids(c)[1])
+        n0 += 1
+    return c
+
+
 def r7_name(f):
     n = short_name(f['q'])
     return n[len('enki::'):] if n.startswith('enki::') else n
@@ -2505,7 +2516,7 @@ def check_publish_fence(ctx, W, tu, wake_fields, verdicts=None):
         def refine(blk, si, st):      # a failed TryWrite published nothing
             if st[0] != 'unfenced' or not blk.cond or len(blk.succ) != 2 or st[1] is None or st[1][0] != fn['id']:
                 return [st]
-            c = core(tu, tu.node(blk.cond))
+            c = deciding(tu, tu.node(blk.cond))
             pol = 1
             while c is not None and c.get('kind') == 'UnaryOperator' and c.get('opcode') == '!':
                 pol = -pol
@@ -2741,7 +2752,7 @@ def check_wake_protocol(ctx, W, tu, verdicts=None):
             def prefine(blk, si, st):
                 if st[0] != 'pending' or not blk.cond or len(blk.succ) != 2:
                     return [st]
-                c = core(tu, tu.node(blk.cond))
+                c = deciding(tu, tu.node(blk.cond))
                 pol = 1
                 while c is not None and c.get('kind') == 'UnaryOperator' and c.get('opcode') == '!':
                     pol = -pol
@@ -3503,7 +3514,7 @@ def check_full_pipe_progress(ctx, W, tu, verdicts=None):
             for blk in g.blocks.values():
                 if not blk.cond or len(blk.succ) != 2:
                     continue
-                c = core(tu, tu.node(blk.cond))
+                c = deciding(tu, tu.node(blk.cond))
                 pol = 1
                 while c is not None and c.get('kind') == 'UnaryOperator' and c.get('opcode') == '!':
                     pol = -pol
@@ -3566,6 +3577,148 @@ def check_full_pipe_progress(ctx, W, tu, verdicts=None):
             ctx.violation(R11, inst, text, loc, key='%s|%s|%s|%s' % (R11, tu.fn_file(f), name, kind))
         if not und and not problems:
             ctx.ok(R11, inst, 'a failed pipe write is never retried before this thread has executed a task itself', tu.fn_loc(f))
+    return n
+
+
+# ================================================================================================
+#  R-C02-12 a task is only left in a pipe if a worker thread exists that can take it out (no workers: run it inline)
+# ================================================================================================
+R12 = 'R-C02-12'
+
+
+def check_workers_exist(ctx, W, info):
+    """derive the number of worker threads from the thread-creation loop and the bounds the callers establish; if it can be zero,
+    the publishing function has to fall back to inline execution under a test of that count"""
+    tu, ts = W.scheduler, W.tasksys
+    n = 0
+    # (1) thread creation loop: for (i = S; i < this->F; ++i) ThreadCreate(...)
+    loops = []
+    for f in tu.functions.values():
+        if f['dep'] or tu.cfg(f) is None or f.get('recid') != info['recid']:
+            continue
+        for L in tu.walk(X.fn_decl(tu, f) or {}):
+            if L.get('kind') != 'ForStmt':
+                continue
+            ks = tu.kids(L)
+            body = ks[-1] if ks else None
+            if body is None or not any(y.get('kind') == 'CallExpr' and tu.sd(y).get('q') in THREAD_START for y in tu.walk(body)):
+                continue
+            start, fld = None, None
+            for y in ks[:-1]:
+                if y.get('kind') == 'DeclStmt':
+                    for vd in tu.kids(y):
+                        if vd.get('kind') == 'VarDecl' and tu.kids(vd):
+                            start = (vd['id'], const_value(tu, tu.kids(vd)[-1]))
+                c = core(tu, y)
+                if c is not None and c.get('kind') == 'BinaryOperator' and c.get('opcode') == '<' and start is not None and \
+                        decl_ref(tu, tu.kids(c)[0]) == start[0] and member_of_this(tu, tu.kids(c)[1]):
+                    fld = (member_of_this(tu, tu.kids(c)[1]), core(tu, tu.kids(c)[1]).get('name'))
+            if start is not None and start[1] is not None and fld is not None:
+                loops.append((f, L, start[1], fld))
+    if len(loops) != 1:
+        ctx.undecided(R12, '[INTERNAL] worker thread creation' + W.tag, '%d thread creation loops of the form `for (i = S; i < member; ++i)` '
+                      'found: cannot derive the number of worker threads' % len(loops), SCHEDULER)
+        return 1
+    lf, L, S, (cfield, cname) = loops[0]
+    # (2) who sets the member: X::Init(n) { member = n; }
+    setters = {}
+    for f in tu.functions.values():
+        if f['dep'] or tu.cfg(f) is None or f.get('recid') != info['recid']:
+            continue
+        for b, i, x in tu.cfg(f).stmts():
+            if x.get('kind') == 'BinaryOperator' and x.get('opcode') == '=' and member_of_this(tu, tu.kids(x)[0]) == cfield:
+                d = decl_ref(tu, tu.kids(x)[1])
+                for pi, p in enumerate(f['params']):
+                    if p['id'] == d:
+                        setters[f['q']] = pi
+    # (3) lower bound the callers in TaskSys.cpp establish for that argument: `if (v < c) v = ...;` gives v >= c (if the fallback is)
+    low = None
+    sites = []
+    for f in ts.functions.values():
+        if f['dep'] or ts.cfg(f) is None:
+            continue
+        for b, i, x in ts.cfg(f).stmts():
+            if x.get('kind') == 'CXXMemberCallExpr' and ts.sd(x).get('q') in setters:
+                args = ts.call_parts(x)[2]
+                a = args[setters[ts.sd(x).get('q')]] if setters[ts.sd(x).get('q')] < len(args) else None
+                cv = const_value(ts, a) if a is not None else None
+                lb = cv
+                v = decl_ref(ts, a) if a is not None else None
+                if lb is None and v:
+                    for blk in ts.cfg(f).blocks.values():
+                        if blk.cond:
+                            c = core(ts, ts.node(blk.cond))
+                            if c is not None and c.get('kind') == 'BinaryOperator' and c.get('opcode') in ('<', '<=') and \
+                                    decl_ref(ts, ts.kids(c)[0]) == v and const_value(ts, ts.kids(c)[1]) is not None:
+                                k0 = const_value(ts, ts.kids(c)[1])
+                                lb = k0 if c['opcode'] == '<' else k0 + 1
+                sites.append((f, x, lb))
+    if not sites:
+        ctx.undecided(R12, '[INTERNAL] worker thread creation' + W.tag, 'no caller that sets `%s` found in TaskSys.cpp' % cname, SCHEDULER)
+        return 1
+    bounds = [lb for f, x, lb in sites]
+    low = None if any(lb is None for lb in bounds) else min(bounds)
+    minworkers = None if low is None else max(0, low - S)
+    # (4) the publishing function: a test of the thread count that routes to inline execution without writing the pipe
+    runners = reaches(tu, lambda q: q == X.ENKI_EXECUTE)
+    for f in sorted(tu.functions.values(), key=lambda f: f['q']):
+        if f['dep'] or tu.cfg(f) is None:
+            continue
+        g = tu.cfg(f)
+        writes = [(b, i, x) for b, i, x in g.stmts() if x.get('kind') == 'CXXMemberCallExpr' and
+                  tu.sd(x).get('q', '').endswith('::WriterTryWriteFront')]
+        if not writes:
+            continue
+        n += 1
+        name = r7_name(f)
+        inst = '[INTERNAL] %s: is there a worker to take the task out of the pipe?' % f['q'] + W.tag
+        wblocks = {b.id for b, i, x in writes}
+        rblocks = {b.id for b, i, x in g.stmts() if x.get('kind') in X.CALLS and
+                   (tu.sd(x).get('q') == X.ENKI_EXECUTE or (tu.callee_fn(x) is not None and tu.callee_fn(x)['id'] in runners))}
+        guarded = False
+        for blk in g.blocks.values():
+            if not blk.cond or len(blk.succ) != 2:
+                continue
+            def mentions_count(e0, depth=0):
+                for y in tu.walk(e0):
+                    if y.get('kind') == 'MemberExpr' and member_of_this(tu, y) == cfield:
+                        return True
+                    if y.get('kind') == 'DeclRefExpr' and depth < 3:
+                        vd = tu.node(y.get('referencedDecl', {}).get('id'))
+                        if vd is not None and vd.get('kind') == 'VarDecl' and tu.enclosing_fn(vd) is not None and tu.kids(vd) \
+                                and mentions_count(tu.kids(vd)[-1], depth + 1):
+                            return True
+                return False
+            if not mentions_count(tu.node(blk.cond)):
+                continue
+            for sx in blk.succ:
+                seen, work = set(), [sx]
+                while work:
+                    bid = work.pop()
+                    if bid is None or bid in seen or bid in wblocks:
+                        continue
+                    seen.add(bid)
+                    if bid in rblocks:
+                        guarded = True
+                        break
+                    work.extend(g.blocks[bid].succ)
+        derived = ('worker threads = %s - %d (loop in %s); callers pass at least %s; minimum number of workers: %s'
+                   % (cname, S, short_name(lf['q']), low if low is not None else 'an unbounded value', minworkers if minworkers is not None else 'unknown'))
+        if minworkers is not None and minworkers >= 1:
+            ctx.ok(R12, inst, 'at least one worker thread always exists [%s]' % derived, tu.fn_loc(f))
+        elif guarded:
+            ctx.ok(R12, inst, 'a test of `%s` routes to inline execution without writing the pipe when there may be no worker [%s]'
+                   % (cname, derived), tu.fn_loc(f))
+        elif minworkers is None:
+            ctx.undecided(R12, inst, 'the number of worker threads is not bounded from below [%s]' % derived, tu.fn_loc(f))
+        else:
+            b0, i0, w0 = writes[0]
+            ctx.violation(R12, inst, 'the scheduler can be initialised without any worker thread (%s), yet %s leaves the task in the pipe (%s at %s) '
+                          'whenever there is room and returns: with no worker nothing ever takes it out unless the caller later enters the '
+                          'scheduler itself, so a function handed to schedule()/async() is not executed and async(f).get() blocks forever '
+                          '(initTaskingSystem(1) or one hardware thread). With no workers the task has to be run inline, as on a full pipe'
+                          % (derived, short_name(f['q']), tu.show(w0), tu.loc(w0)), tu.loc(w0),
+                          key='%s|%s|%s|published-with-no-worker-threads' % (R12, tu.fn_file(f), name))
     return n
 
 
@@ -3800,15 +3953,16 @@ def run_world(ctx, W):
     n10 = check_delete_under_lock(ctx, W, W.tasksys)
     n11 = check_full_pipe_progress(ctx, W, W.scheduler)
     info = classify_scheduler(ctx, W)
-    n8 = n9 = 0
+    n8 = n9 = n12 = 0
     if info is None or not info['drains']:
         ctx.broken('%s: cannot identify the pipe member / a function that drains all queued tasks in TaskScheduler.cpp%s' % (R8, W.tag))
     else:
         W.sched_info = info
         n8 = check_scheduler_teardown(ctx, W, info) + check_drain_before_discard(ctx, W, [W.tasksys], info)
         n9 = check_thread_index(ctx, W, info)
+        n12 = check_workers_exist(ctx, W, info)
     check_witness(ctx, W)
-    return dict(n2o=n2o, n11=n11, n10=n10, n9=n9, n8=n8, n7s=n7s, n7p=n7p, n1=n1 + n_sub, names=names, n2=n2, n3=n3, n4=n4, n5=n5, n6=n6, nsites=nsites)
+    return dict(n12=n12, n2o=n2o, n11=n11, n10=n10, n9=n9, n8=n8, n7s=n7s, n7p=n7p, n1=n1 + n_sub, names=names, n2=n2, n3=n3, n4=n4, n5=n5, n6=n6, nsites=nsites)
 
 
 def floors(ctx, r, tag=''):
@@ -3826,6 +3980,7 @@ def floors(ctx, r, tag=''):
     ctx.floor(R5, r['n5'], 8, 'async<IntJob>, async<StringJob&> x 4 backends' + tag)
     ctx.floor(R6, r['n6'], 5, 'ExecuteRange overrides: schedule_internal x 3, AsyncTaskImpl, parallel_for_internal' + tag)
     ctx.floor(R6, r['nsites'], 2, 'ExecuteRange call sites in TaskScheduler.cpp: 3' + tag)
+    ctx.floor(R12, r['n12'], 1, 'functions of the scheduler that write a task to a pipe: SplitAndAddTask' + tag)
     ctx.floor(R11, r['n11'], 1, 'functions of the scheduler that write a task to a pipe: SplitAndAddTask' + tag)
     ctx.floor(R10, r['n10'], 1, 'functions of TaskSys.cpp that take the detached-task mutex: scheduleDetachedTaskInternal' + tag)
     ctx.floor(R9, r['n9'], 1, 'thread-local pipe index variables used for writer-side pipe operations: gtl_threadNum' + tag)
@@ -3850,6 +4005,8 @@ def run(ctx):
     ctx.assume('tbb::task_arena::enqueue, tbb::task_group::run, std::thread and the enkiTS pipe invoke a submitted callable exactly once '
                '(backend contract; the enkiTS partition/pipe bookkeeping is the subject of C01/C12)')
     ctx.assume('std::packaged_task / std::future deliver the value of the invoked callable (standard library contract)')
+    ctx.describe(R12, 'a task is left in a pipe only if a worker thread exists that can take it out: the number of workers derived from the '
+                      'thread creation loop and the callers\' bounds is at least one, or the publisher runs the task inline when it may be zero')
     ctx.describe(R11, 'scheduling makes progress on the calling thread alone: a failed (full) pipe write is not retried before the thread '
                       'has executed a task itself')
     ctx.describe(R10, 'no task object is destroyed (closure destructor = user code that may call schedule()) while a mutex is held that the '
